@@ -309,3 +309,25 @@ func HarnessSelfTestParse(a []int) {
 	}
 	verifCover("self.parse.end")
 }
+
+func init() {
+	verifHarnesses["HarnessSelfTestItoa"] = HarnessSelfTestItoa
+}
+
+// HarnessSelfTestItoa: the decimal formatter behind strconv.Itoa/FormatUint/AppendUint for every
+// 16-bit value: parsing the text back gives the value, no leading zero, same text from all three.
+func HarnessSelfTestItoa(a []int) {
+	v := nondetU16()
+	s1 := strconv.Itoa(int(v))
+	s2 := strconv.FormatUint(uint64(v), 10)
+	s3 := string(strconv.AppendUint([]byte("x"), uint64(v), 10))
+	verifAssert("self.itoa.same", s1 == s2 && s3 == "x"+s1)
+	verifAssert("self.itoa.shape", len(s1) >= 1 && len(s1) <= 5 && (len(s1) == 1 || s1[0] != '0'))
+	back := 0
+	for i := 0; i < len(s1); i++ {
+		verifAssert("self.itoa.digit", s1[i] >= '0' && s1[i] <= '9')
+		back = back*10 + int(s1[i]-'0')
+	}
+	verifAssert("self.itoa.value", back == int(v))
+	verifCover("self.itoa.end")
+}
